@@ -4,6 +4,7 @@ import ScenicModel.Props.C14SideAgents
 import ScenicModel.Props.C14SideStale
 import ScenicModel.Props.C14SideGlobals
 import ScenicModel.Props.C14SideSuspended
+import ScenicModel.Props.C14SideDestroy
 import ScenicModel.Props.C14Destroy
 
 /-!
@@ -12,12 +13,11 @@ import ScenicModel.Props.C14Destroy
 Root module of the property.  The general theorems (parametric in the configuration / tables) are in
 `C14Overrides`, `C14Stale`, `C14Revert`, `C14Nested`, `C14Globals`, `C14Destroy`, their negation witnesses in
 `C14Witness` / `C14Globals` / `C14Destroy`; the side conditions on the data regenerated from /repo, and the
-closed `…_current` theorems they yield, are in `C14Base` and `C14Side{Order,Agents,Stale,Globals,Suspended}`.
-Since the repairs 84308c42, 4fbf0f54, f1944ee0 and 0e4a55a4 all of these side conditions hold of the source;
-this module adds the statement that puts them together.
-
-(`C14SideDestroy` – the rest of the `finally` block is protected against a `destroy()` that raises – is false
-of the source as found and is built by the check only when its condition holds.)
+closed `…_current` theorems they yield, are in `C14Base` and
+`C14Side{Order,Agents,Stale,Globals,Suspended,Destroy}`.
+Since the repairs 84308c42, 4fbf0f54, f1944ee0, 0e4a55a4 and fc314756 (the rest of the `finally` block is protected
+against a `destroy()` that raises) all of these side conditions hold of the source; this module adds the statements
+that put them together.
 -/
 namespace Scenic.C14
 open Scenic.Overrides Scenic.Veneer Scenic.Gen
